@@ -51,7 +51,7 @@ func verifC14MemDiscipline() {
 	length := verifNondetU64("len")
 	verifAssume(length <= 3)
 
-	verifGuardedBy(&fs.m)
+	verifGuardedBy(fs)
 	verifSharedReach(fs)
 	verifMonitor(true)
 	verifTry(func() { verifC14MemOp(fs, op, fa, fr, data, off, length, dir, name) })
